@@ -588,6 +588,12 @@ class C06(Prop):
                             if name == "neuber":
                                 return (f"{what}: {fname}({xs!r}) gives {v!r} for the stress {x!r} of the load {w!r}",
                                         self._neuber_backward_class(case, br, x, dev, w))
+                            # a vector result that differs from the scalar call on the same stress is a failure of the vector
+                            # path of the backward function (documented as 'only implemented for the scalar case')
+                            sc = call(fn(make_law(case), "load", br), float(x), t)
+                            if isinstance(sc, str) or abs(sc[0] - v) > 2 * (t + t * abs(w)) or v != v:
+                                return (f"{what}: {fname}({xs!r}) gives {v!r} for the stress {x!r} of the load {w!r}; the scalar call "
+                                        f"{'raises ' + sc if isinstance(sc, str) else 'gives ' + repr(sc[0])}", "seegerbeste-backward-vector")
                             return (f"{what}: {fname}({xs!r}) gives {v!r} for the stress {x!r} of the load {w!r}",
                                     sb_class("seegerbeste-tolerance", dev / abs(w), Kp))
                     elif dev > t + t * abs(w):
